@@ -151,11 +151,26 @@ CHECKS = [
                 "writes to that cell only). Text migration into the origin cell and the whole property on all tables <= 3x3/4x4 with "
                 "merge/split sequences of depth 2/3 are covered by the bounded C14.native_tables job (never counted as proved).",
     },
+    {
+        "property_id": "C05",
+        "technique": "contract-based verification: qualifier contracts (escaped-for-context) checked by symbolic execution of the real template code (pyvc), sinks scanned with an XML lexical automaton",
+        "category": "proof",
+        "text": "Caller strings enter as opaque atoms without qualifier; saxutils.escape (assumed) yields atoms qualified "
+                "escaped(& < > + given entities). Every template constructor (new_pic, new_ph_pic, new_video_pic, new_*_sp, new_cxnSp, "
+                "new_grpSp, new_*_graphicFrame, new_chart), the shape-tree callers that build shape names, AutoShapeType.basename "
+                "(ground over 182 entries), ChartXmlWriter(...).xml for all 73 chart types x data shapes and every series-writer "
+                "element builder used by replace_data are executed symbolically from their real source (%-formatting, str.format, "
+                "f-strings, nsdecls, helper properties are just code); at the sink (parse_xml / chart XML text) each caller atom must "
+                "carry the qualifier of its lexical context (& < in content, plus the delimiting quote in an attribute value).",
+        "note": "Assumed: escape()'s contract; lxml .set()/.text= store verbatim (those paths carry no obligation); chart data shapes are "
+                "enumerated, strings symbolic. Replays go through the public API with the string a\"b&<c. F4 (picture descr, movie "
+                "name, OLE progId, chart number formats) found by these obligations and repaired by four fix: commits.",
+    },
 ]
 
 _PENDING = "check not built yet in this session (planned, see DESIGN.md section 5)"
 NOT_APPLICABLE = [
     {"property_id": p, "reason": _PENDING}
-    for p in ["C01", "C02", "C03", "C04", "C05", "C07", "C09", "C12", "C13", "C16",
+    for p in ["C01", "C02", "C03", "C04", "C07", "C09", "C12", "C13", "C16",
               ]
 ]
